@@ -195,6 +195,11 @@ def clamps (td : Delta) (sign : Int) (t : Int) : Bool :=
   let tm := 12 * f.y + (f.mo - 1) + sign * (12 * td.years + td.months)
   f.d > dim (tm / 12) (tm % 12 + 1)
 
+/-- a delta with a calendar part (years/months) *and* an exact part (days … microseconds): no SQL
+interval unit produces one, and undoing it would need the opposite order of application -/
+def mixedDelta (td : Delta) : Bool :=
+  (td.years ≠ 0 ∨ td.months ≠ 0) ∧ (td.days ≠ 0 ∨ td.duration 1 ≠ 0)
+
 /-! ## 4. DATEDIFF / TIMESTAMPDIFF (function/time_math.go) -/
 
 /-- Impl: both arguments are cut to their date, subtracted as Go durations (saturating at
@@ -297,13 +302,13 @@ def TsUnit.isCalendar : TsUnit → Bool
 
 abbrev Str := List UInt8
 
-def isDigit (b : UInt8) : Bool := 48 ≤ b && b ≤ 57
-def isSpace (b : UInt8) : Bool := b == 32
+def isDigit (b : UInt8) : Bool := 48 ≤ b.toNat && b.toNat ≤ 57
+def isSpace (b : UInt8) : Bool := b.toNat == 32
 /-- ASCII part of `unicode.IsSpace` (`strings.TrimSpace`) -/
-def isTrimSpace (b : UInt8) : Bool := b == 32 || (9 ≤ b && b ≤ 13)
+def isTrimSpace (b : UInt8) : Bool := b.toNat == 32 || (9 ≤ b.toNat && b.toNat ≤ 13)
 def toLower (b : UInt8) : UInt8 := if 65 ≤ b && b ≤ 90 then b + 32 else b
 def lower (s : Str) : Str := s.map toLower
-def ofString (s : String) : Str := s.toUTF8.toList
+def ofString (s : String) : Str := s.toUTF8.data.toList
 
 /-- Go: `takeAtMost(n, str, isNumeral)` -/
 def takeDigits : Nat → Str → Str × Str
@@ -499,38 +504,27 @@ def clockP (with12 : Bool) : P := fun dt chars =>
 inductive SpecP where
   | unknown | unsupported | p (f : P)
 
-/-- Go: the `formatSpecifiers` map, as (specifier byte ↦ name of the Go parser function; "nil" for
-the entries that are present but nil; "literal" for `'%': literalParser('%')`). Compared with the
-regenerated `Generated.C31.parseSpecifiers` by `facts_match`. -/
+/-- Go: the `formatSpecifiers` map of sql/planbuilder/dateparse/date.go, in source order, as
+(specifier byte ↦ name of the Go parser function; "nil" for the entries that are present but nil;
+"literal" for `'%': literalParser('%')`). `facts_match` re-proves on every run that this is the
+table regenerated from the source (`Generated.C31.parseSpecifiers`). -/
+def parseSpecTable : List (Nat × String) :=
+  [(97, "parseWeekdayAbbreviation"), (98, "parseMonthAbbreviation"), (99, "parseMonthNumeric"),
+   (68, "parseDayNumericWithEnglishSuffix"), (100, "parseDayOfMonth2DigitNumeric"),
+   (101, "parseDayOfMonthNumeric"), (102, "parseMicrosecondsNumeric"), (72, "parse24HourNumeric"),
+   (104, "parse12HourNumeric"), (73, "parse12HourNumeric"), (105, "parseMinuteNumeric"),
+   (106, "parseDayOfYearNumeric"), (107, "parse24HourNumeric"), (108, "parse12HourNumeric"),
+   (77, "parseMonthName"), (109, "parseMonth2DigitNumeric"), (112, "parseAmPm"),
+   (114, "parse12HourTimestamp"), (83, "parseSecondsNumeric"), (115, "parseSecondsNumeric"),
+   (84, "parse24HourTimestamp"), (85, "nil"), (117, "nil"), (86, "nil"), (118, "nil"), (87, "nil"),
+   (119, "nil"), (88, "nil"), (120, "nil"), (89, "parseYear4DigitNumeric"),
+   (121, "parseYear2DigitNumeric"), (37, "literal")]
+
+/-- Go: `formatSpecifiers[c]` ("" when the key is absent) -/
 def specName (c : UInt8) : String :=
-  match Char.ofNat c.toNat with
-  | 'a' => "parseWeekdayAbbreviation"
-  | 'b' => "parseMonthAbbreviation"
-  | 'c' => "parseMonthNumeric"
-  | 'D' => "parseDayNumericWithEnglishSuffix"
-  | 'd' => "parseDayOfMonth2DigitNumeric"
-  | 'e' => "parseDayOfMonthNumeric"
-  | 'f' => "parseMicrosecondsNumeric"
-  | 'H' => "parse24HourNumeric"
-  | 'h' => "parse12HourNumeric"
-  | 'I' => "parse12HourNumeric"
-  | 'i' => "parseMinuteNumeric"
-  | 'j' => "parseDayOfYearNumeric"
-  | 'k' => "parse24HourNumeric"
-  | 'l' => "parse12HourNumeric"
-  | 'M' => "parseMonthName"
-  | 'm' => "parseMonth2DigitNumeric"
-  | 'p' => "parseAmPm"
-  | 'r' => "parse12HourTimestamp"
-  | 'S' => "parseSecondsNumeric"
-  | 's' => "parseSecondsNumeric"
-  | 'T' => "parse24HourTimestamp"
-  | 'U' => "nil" | 'u' => "nil" | 'V' => "nil" | 'v' => "nil"
-  | 'W' => "nil" | 'w' => "nil" | 'X' => "nil" | 'x' => "nil"
-  | 'Y' => "parseYear4DigitNumeric"
-  | 'y' => "parseYear2DigitNumeric"
-  | '%' => "literal"
-  | _ => ""
+  match parseSpecTable.find? (·.1 == c.toNat) with
+  | some e => e.2
+  | none => ""
 
 /-- The model of each Go parser function, by name. -/
 def parserOfName : String → SpecP
@@ -579,8 +573,9 @@ def compileFormat : Str → Except PErr (List Step)
         | .p f => bindE (compileFormat rest') fun l => .ok ({ run := f, spec := some sp } :: l)
     else bindE (compileFormat rest) fun l => .ok ({ run := literalP c .literal, spec := none } :: l)
 
-def timeSpecifiers : Str := ofString "fHhIiklprSsT"
-def dateSpecifiers : Str := ofString "abcDdejMmUuVvWwXxYy"
+/-- Go: `timeSpecifiers` = "fHhIiklprSsT", `dateSpecifiers` = "abcDdejMmUuVvWwXxYy" (bytes) -/
+def timeSpecifiers : Str := [102, 72, 104, 73, 105, 107, 108, 112, 114, 83, 115, 84]
+def dateSpecifiers : Str := [97, 98, 99, 68, 100, 101, 106, 77, 109, 85, 117, 86, 118, 87, 119, 88, 120, 89, 121]
 
 /-- Go: the am/pm validation loop of `ParseDateWithFormat`: only the *first* time specifier (in
 the order of `timeSpecifiers`) that occurs in the format is examined. -/
@@ -820,7 +815,7 @@ def Item.text (it : Item) : Str :=
 def renderItems (l : List Item) : Str := l.flatMap Item.text
 
 /-- literal bytes of the grammar: printable ASCII except `%` and the digits -/
-def litOk (c : UInt8) : Bool := 33 ≤ c && c ≤ 126 && c != 37 && !isDigit c
+def litOk (c : UInt8) : Bool := 33 ≤ c.toNat && c.toNat ≤ 126 && c.toNat != 37 && !isDigit c
 
 def Item.ofSpec? (c : UInt8) : Option Item :=
   if c == 89 then some .Y else if c == 109 then some .m else if c == 100 then some .d
